@@ -12,6 +12,8 @@ const EXT: &[(&str, &str)] = &[
     ("o", "{assert self.a > 0 : 'neg', a: -1, b: 2}"),
     ("p", "{assert self.a > 0, a: 1, b: std.foldl(function(x, y) x + y, [1, 2, 3], 0), c: error 'c-bad', d: self.c}"),
     ("lib", "{ v: std.foldl(function(a, i) a + i, std.range(1, 5), 0), deep(n): if n == 0 then self.v else 1 + self.deep(n - 1), arr: [self.v, error 'el', 3], lazy: [std.extVar('p').c, 1] }"),
+    ("o2", "{assert self.a > 0 : 'neg2', c: 3} + {a: -1, b: 2}"),
+    ("o3", "{assert self.deep(30) > 0, deep(n): if n == 0 then 1 else self.deep(n - 1)} + {b: 2} + {c: 3}"),
     ("f", "function(x, y=std.extVar('lib').v) x + y"),
     ("g", "function(x) if x > 0 then error 'positive' else x"),
 ];
@@ -57,6 +59,9 @@ const SOURCES: &[&str] = &[
     "std.extVar('o') == std.extVar('o')",
     "std.extVar('g')(1)",
     "std.sort([3, 1, 2]) + std.extVar('lib').arr[0:1]",
+    "std.extVar('o2').b",
+    "std.extVar('o2')",
+    "std.extVar('o3').c",
 ];
 
 pub fn alphabet() -> Vec<Req> {
@@ -165,7 +170,7 @@ pub fn do_req(st: &mut State<'_>, r: Req) -> String {
         }
         Req::Deep => {
             st.p.set_max_stack(20);
-            let t = load(&mut st.p, "std.extVar('lib').deep(30)");
+            let t = load(&mut st.p, "[std.extVar('lib').deep(30), std.extVar('o3').b]");
             let r = st.p.eval_value(&t, &mut cb);
             let s = fin(&mut st.p, r, &cb);
             st.p.set_max_stack(500);
@@ -266,7 +271,7 @@ pub fn run(ctx: &Ctx) -> i32 {
         return 3;
     }
     let mut total = Report::new();
-    let cfg = util::ForkCfg { threads: ctx.threads, mem_bytes: 4 << 30, case_timeout_s: 60, died_signature: "C11/abort".into() };
+    let cfg = util::ForkCfg { threads: ctx.threads, mem_bytes: 4 << 30, case_timeout_s: 60, died_signature: "C11/abort".into(), resource_is_violation: false };
     let maxlen = if ctx.quick() { 3 } else { 4 };
     for len in 1..=maxlen {
         let r = util::par_forked(&cfg, if len >= 3 { 256 } else { 16 }, |sh| sweep(len, &alpha, &base, sh));
